@@ -10,7 +10,8 @@ LEVEL = "exploration"
 RULE = (
     "grid: every (max, min) pair of G x G inside the domain, G = {0} u {+-2^k, +-2^k+-1 : k=0..64} "
     "u {c, c+-1 : c an integer constant of the current fit_dtype code object}, plus the one-argument "
-    "form for every negative g; interior: Hypothesis integers over the same domain. Oracle: numpy.iinfo "
+    "form for every negative g; every pair is passed as Python ints and as NumPy scalars (narrowest unsigned / signed "
+    "dtype holding each value, and 64-bit), the forms the library's own call sites produce; interior: Hypothesis integers over the same domain. Oracle: numpy.iinfo "
     "only. Non-trivial = mixed-sign pair (min < 0 < max); distinct by (max, min). dense_output: the same oracle applied "
     "to the dtype iindex.to_array() selects by default for generated value sets. indx_word: the coordinate word "
     "size byte of files written by IndxIO.save for generated entries (arity 1..4, widest value in any key and "
@@ -45,8 +46,10 @@ def check(case, rec):
     from catii.iindexes import fit_dtype
 
     mx, mn = case["max"], case["min"]
-    with libcall("fit_dtype(%r, %r)" % (mx, mn)):
-        got = fit_dtype(mx) if mn is None else fit_dtype(mx, mn)
+    form = case.get("form", "py")
+    amx, amn = as_form(mx, form), (None if mn is None else as_form(mn, form))
+    with libcall("fit_dtype(%r, %r)" % (amx, amn)):
+        got = fit_dtype(amx) if mn is None else fit_dtype(amx, amn)
     want = expected_dtype(mx, mn)
     if want is None:
         return
@@ -65,10 +68,27 @@ def check(case, rec):
             % (mx, mn, got, want, kind),
             sig="fit_dtype " + kind,
         )
-    rec.note("kind=" + want.name)
+    rec.note("kind=" + want.name, "args=" + form)
     eff_min = mn if mn is not None else min(mx, 0)
     if eff_min < 0 < mx:
         rec.nontrivial({"max": mx, "min": mn})
+
+
+def as_form(v, form):
+    """The argument as the library's own call sites hand it over: a Python int, or a NumPy scalar read out of an
+    array - of the narrowest dtype holding it (so it sits at or near the extreme of its own type) or 64 bits wide."""
+    import numpy
+
+    if form == "py":
+        return v
+    names = (SIGNED if v < 0 else UNSIGNED) if form == "np_narrow" else (["int64"] if v < 2 ** 63 else ["uint64"])
+    if form == "np_signed":
+        names = SIGNED + ["uint64"]
+    for n in names:
+        ii = numpy.iinfo(n)
+        if ii.min <= v <= ii.max:
+            return numpy.dtype(n).type(v)
+    return v
 
 
 def harvest_constants():
@@ -130,6 +150,8 @@ def enum_grid(tier, shard, nshards):
             if in_domain(mx, mn):
                 if i % nshards == shard:
                     yield {"max": mx, "min": mn}
+                    for form in ("np_narrow", "np_signed", "np64"):
+                        yield {"max": mx, "min": mn, "form": form}
                 i += 1
 
 
